@@ -41,7 +41,7 @@ pub fn rules_for(prop: &'static str) -> Rules {
         transcript: true,
         cursor: prop == "C01",
         forced_paint: true,
-        height_cut: prop == "C19",
+        height_cut: prop == "C19" || prop == "C03",
         prop,
     }
 }
@@ -315,6 +315,8 @@ impl Check for TermCheck {
                     *rng.pick(&[4, 30])
                 }
             }
+            // (C03: now and then so low that frames are cut: printed lines must survive that too)
+            Flavor::C03 => *rng.pick(&[60, 60, 200, 24, 12, 3, 2]),
             _ => *rng.pick(&[60, 60, 200, 24, 12]),
         };
         sc.set("h", h);
